@@ -687,7 +687,10 @@ def check_C15(ctx):
                 "and sampled multipliers of Mul16/Mul128 validated by TLC against GF.tla/LCH.tla built from the field polynomial and Cantor basis; (3) mul on probe "
                 "blocks covering all 64 nibble patterns for sampled multipliers per engine; (4) fft/ifft for sizes 1..32, every truncated size, skew offsets incl. the "
                 "last legal one, against the polynomial-evaluation contract FFTSpec; (5) eval_poly on mark sets against the locator definition at sampled points for "
-                "several truncated sizes; thorough: all 2^32 (symbol, log_m) pairs per engine against the certified tables. distinct = recorded events")
+                "several truncated sizes; (6) Shards.tla: every history of legal calls on the working-space views (ShardsRefMut new/index/dist2_mut/dist4_mut/split_at_mut/zero, "
+                "utils::xor/xor_within) that TLC enumerates on a palette of buffer shapes is replayed on the real types, and seeded random walks on larger shapes, "
+                "every chunk of the buffer after every call validated by Trace_Shards; thorough: all 2^32 (symbol, log_m) pairs per engine against the certified "
+                "tables. distinct = recorded events")
     ctx.assumptions = ["TLC arithmetic and CommunityModules Java overrides are trusted",
                        "WhatLin = What and SkewLin = SkewDef are model-checked exhaustively on small fields and re-checked on a spread of entries at 16 bits",
                        "the thorough 2^32 loop runs in the harness against Exp/Log tables that the same run validates entry by entry"]
@@ -774,8 +777,11 @@ def check_C16(ctx):
                 "dependency relation and per-engine programs of the current tree; (2) TableInit.tla is model-checked over exactly those (3 threads, every choice of programs, "
                 "all interleavings): no re-entrant initialisation, no deadlock, termination under weak fairness; (3) fresh processes with 2..8 threads released by a "
                 "barrier, different engines, encode+decode rounds, objects handed to another thread mid-round: Trace_TableInit checks nesting, no re-entrancy, nesting within "
-                "the observed dependencies, every result = sequential execution, normal exit (a watchdog turns a hang into a rejected event). distinct = processes")
-    ctx.assumptions = ["real thread schedules are those the OS produced in this run; all interleavings are explored only in the model, over the observed dependencies",
+                "the observed dependencies, every result = sequential execution, normal exit (a watchdog turns a hang into a rejected event); (4) gated schedules: every "
+                "reachable state of the model in which an initialiser is running is reached on the real code by holding threads at the begin / end of initialisers "
+                "(hook H6) and releasing them at one instant - states with two running initialisers and 'about to publish while others arrive' repeated in "
+                "thousands of fast processes with swept timing - and must terminate with sequential results. distinct = processes")
+    ctx.assumptions = ["between the hold points of hook H6 real thread schedules are those the OS produced in this run; all interleavings are explored only in the model, over the observed dependencies",
                        "std::sync::LazyLock semantics (block while another thread initialises; re-entrancy never completes) are modelled, not re-verified"]
     if ctx.replay:
         d = os.path.dirname(ctx.replay)
